@@ -128,12 +128,12 @@ def ob_never_suspends(ctx, num, key: str, label: str):
 
 
 def fixture_suspend_present(ctx, num):
-    """Positive fixture for the zero-count rule: the Suspend( matcher must find the site in priority.py."""
-    P = ctx.P
-    f = scheduler(P, "priority")
-    n = len(suspend_sites(P, f))
-    if n < 1:
-        raise AnalysisError("fixture failed: no Suspend( site found in the priority scheduler (the zero-count rule would be vacuous)")
+    """Positive fixture for the zero-count rule: the Suspend( matcher must find the site in a tiny scheduler that has one."""
+    from ..model import Module
+    m = Module("<fixture>", "def fx(s, results, pipelines):\n    sus = [Suspend(c.container_id, c.pool_id) for c in s.executor.pools[0].active_containers]\n    return sus, []\n", virtual=True)
+    n = len(suspend_sites(ctx.P, m.funcs["fx"]))
+    if n != 1:
+        raise AnalysisError("fixture failed: the Suspend( matcher does not find the site of the positive example (the zero-count rule would be vacuous)")
 
 
 def ops_origin_ok(f: Func, g, site: ast.Call) -> Tuple[bool, str]:
